@@ -286,6 +286,46 @@ def run(ctx):
                                   x=x, h=hh, rel_error_first=e1, rel_error_second=e2,
                                   signature=None)
                     break
+    # a real ndarray on the left of + - * / (numpy then drives the operation and hands the object array back through
+    # Bicomplex.__array_wrap__): whatever the memory layout of that array (C order, Fortran order, a transposed view, a strided slice),
+    # element [i, j] of the result is the scalar operation on A[i, j]
+    for it in range(ctx.budget(40, 400)):
+        r_, c_ = rng.randint(2, 4), rng.randint(2, 4)
+        A = np.array([[rng.randint(-16, 16) / 8 or 0.5 for _ in range(c_)] for _ in range(r_)])
+        layout = rng.choice(['C', 'F', 'T', 'strided'])
+        Al = {'C': A, 'F': np.asfortranarray(A), 'T': np.ascontiguousarray(A.T).T, 'strided': np.repeat(A, 2, axis=1)[:, ::2]}[layout]
+        x, h = rng.uniform(0.5, 2.0), 10.0 ** rng.uniform(-8, -2)
+        zs = Bicomplex(x + 1j * h, h)
+        zkind = rng.choice(['scalar', 'row'])
+        xv = np.array([rng.uniform(0.5, 2.0) for _ in range(c_)])
+        zarg = zs if zkind == 'scalar' else Bicomplex(xv + 1j * h, h * np.ones(c_))
+        opname = rng.choice(['+', '-', '*', '/'])
+        op = {'+': lambda a, b: a + b, '-': lambda a, b: a - b, '*': lambda a, b: a * b, '/': lambda a, b: a / b}[opname]
+        ctx.tried(('ndarray-left', layout, opname, zkind, r_, c_, x))
+        try:
+            R = op(Al, zarg)
+            z1, z2 = np.asarray(R.z1), np.asarray(R.z2)
+            if z1.shape != (r_, c_):
+                ctx.violation('ndarray (op) Bicomplex does not have the broadcast shape', layout=layout, op=opname, shape=list(z1.shape),
+                              expected=[r_, c_])
+                continue
+            bad = None
+            for i in range(r_):
+                for j in range(c_):
+                    zj = zs if zkind == 'scalar' else Bicomplex(xv[j] + 1j * h, h)
+                    e = op(float(A[i, j]), zj)
+                    e1, e2 = complex(np.asarray(e.z1).ravel()[0]), complex(np.asarray(e.z2).ravel()[0])
+                    if abs(z1[i, j] - e1) > 1e-13 * (abs(e1) + 1e-300) or abs(z2[i, j] - e2) > 1e-13 * (abs(e2) + 1e-300):
+                        bad = (i, j, str(z1[i, j]), str(e1), str(z2[i, j]), str(e2))
+                        break
+                if bad:
+                    break
+            if bad:
+                ctx.violation('real ndarray (op) Bicomplex is not elementwise: an element differs from the scalar operation on that element',
+                              memory_layout=layout, op=opname, bicomplex=zkind, A=A.tolist(), x=x, h=h, index=list(bad[:2]),
+                              z1=[bad[2], bad[3]], z2=[bad[4], bad[5]])
+        except Exception as ex_:
+            ctx.violation('real ndarray (op) Bicomplex raised %r' % ex_, memory_layout=layout, op=opname, bicomplex=zkind)
     ctx.notes.append('worst relative deviation from the idempotent oracle on this run: %.3g (envelope %g)' % (worst, ENVELOPE))
     ctx.assumptions.append('numpy\'s complex elementary functions are the reference for the holomorphic extension (oracle) and are '
                            'identified with Mathlib\'s Complex.exp/sin/cos/sinh/cosh/log in the theorems; branch cuts away from the real '
